@@ -138,40 +138,8 @@ let judge13 line impl =
         if quoted then expect_fields [r] store
         else if has_ifs r || String.exists (fun c -> c = '*' || c = '?' || c = '[') r then "-"
         else expect_fields (if r = "" then [] else [r]) store in
-      (* ${p#w} etc. on one value: Some result, or None when the pattern is outside the modelled subset / malformed *)
-      let remove_one (x : wpart list) (v : n list) : (string * string) option =
-        match expand_str2 e x pattern_mode with
-        | Error _ -> None
-        | Ok (pat, e1) ->
-          let suffix = ops.[0] = '%' and largest = String.length ops = 2 in
-          let pmode = n_of_int ((if suffix then 4 else 8) lor (if largest then 2 else 1)) in
-          (match compile_model [bytes_of_string pat] pmode with
-           | COk alts ->
-             let its = List.map (List.map fst) alts in
-             let sy = syms_of v in
-             let m = if suffix then spec_suffix fst largest its sy else spec_prefix fst largest its sy in
-             let ms = match m with Some x -> str (raw x) | None -> "" in
-             let vs = str v in
-             let r = if suffix then String.sub vs 0 (String.length vs - String.length ms)
-               else String.sub vs (String.length ms) (String.length vs - String.length ms) in
-             Some (r, fmt_store e1)
-           | _ -> None) in
-      if (nm = "@" || nm = "*") && (ops = "#" || ops = "##" || ops = "%" || ops = "%%") && ww <> None then begin
-        (* the operator applies to each positional parameter in turn *)
-        let x = match ww with Some x -> x | None -> [] in
-        let rs = List.map (fun p -> remove_one x (bytes_of_string p)) pos in
-        if pos = [] || List.exists (fun r -> r = None) rs then "-" else
-          let vals = List.map (fun r -> match r with Some (v, _) -> v | None -> "") rs in
-          let store = match List.hd rs with Some (_, st) -> st | None -> store0 in
-          if nm = "@" && quoted then expect_fields vals store
-          else if quoted then
-            let sep = match get e (bytes_of_string "IFS") with
-              | Ok ((_, v), true) -> (match syms_of v with (_, b) :: _ -> str b | [] -> "")
-              | _ -> " " in
-            expect_fields [String.concat sep vals] store
-          else if List.exists (fun p -> has_ifs p || p = "" || String.exists (fun c -> c = '*' || c = '?' || c = '[') p) vals then "-"
-          else expect_fields vals store
-      end else
+      (* the removal operators on $@ / $* are left to the correspondence: POSIX does not say whether they apply to each
+         positional parameter or to the joined string, and the implementation does either depending on the quoting *)
       if nm = "@" || nm = "*" then begin
         if ops <> "" then "-" else
         if nm = "@" && quoted then (if pos = [] then expect_fields [] store0 else expect_fields pos store0)
